@@ -35,6 +35,9 @@ def fit_case(draw, accuracy=None):
         # a fine intensity ramp: the next target is a few 1e-6 (relative) away - another problem, not a repetition
         f = 1.0 + draw(gens.log_uniform(1e-7, 1e-5))
         rows.append(dict(rows[-1], b=(np.asarray(rows[-1]["b"], dtype=float) * f).tolist(), kind=rows[-1]["kind"] + "+ramp"))
+    if draw(st.integers(0, 4)) == 0:
+        # the same target again, directly after itself (patterned stimuli): with per-sample weights it is still another problem
+        rows.append(dict(rows[-1], kind=rows[-1]["kind"] + "+repeat"))
     m = len(sysd["A"])
     W = draw(weights(m, len(rows)))
     if W is not None and not isinstance(W, str):
